@@ -29,6 +29,7 @@ def run(ctx) -> None:
     ctx.rule("R1", "both readers share the BOOL_OPTIONS loop and _set_raw_config_defaults; dispatch on format; single _parse_config")
     ctx.rule("R2", "every key _parse_config consumes can come from both readers; INI boolean spellings")
     ctx.rule("R3", "section names agree: readers == self-pattern parser == init templates")
+    ctx.rule("R5", "INI file_patterns value: every non-blank line is one pattern (text on the key line included), none skipped by position")
     ctx.rule("R4", "normaliser invariants: tag/push require commit; None -> False; TagScope(...)")
 
     readers = {"cfg": prog.function("config._parse_cfg"), "toml": prog.function("config._parse_toml")}
@@ -210,3 +211,23 @@ def run(ctx) -> None:
         ok = any(isinstance(c, ast.Call) and isinstance(c.func, ast.Attribute) and c.func.attr == "strip" and unparse(c.func.value) == k and c.args
                  and _chars(c.args[0]) is not None and {"'", '"'} <= set(_chars(c.args[0])) for c in ast.walk(pcf.node))
         ctx.check("R4", ok, f"_parse_config strips quotes/spaces from {k} (INI values keep their quotes)", f"config._parse_config: {k} is not quote-stripped (INI and TOML would differ)", "", loc=pcf.loc())
+
+    # ---------------------------------------------------------------- R5
+    # `path = pattern` on the key line and continuation lines below it mean the same list a TOML array would give
+    fpf = prog.function("config._parse_cfg_file_patterns")
+    ctx.visit(fpf.fq)
+    ys = [n for n in walk_no_nested(fpf.node) if isinstance(n, ast.Yield) and isinstance(n.value, ast.Tuple) and len(n.value.elts) == 2]
+    ctx.floor("R5", "yield (filepath, patterns) sites in _parse_cfg_file_patterns", len(ys), 1)
+    for y in ys:
+        pe = y.value.elts[1]
+        lc = shapes.loop_as_listcomp(fpf, pe.id, prog) if isinstance(pe, ast.Name) else None
+        expr = shapes.inline(fpf, lc if lc is not None else pe, prog)
+        txt = unparse(expr)
+        splits = [c for c in ast.walk(expr) if isinstance(c, ast.Call) and isinstance(c.func, ast.Attribute) and c.func.attr in ("splitlines", "split")]
+        ctx.require(len(splits) >= 1, f"_parse_cfg_file_patterns: the value is not split into lines: `{txt[:80]}`")
+        positional = [n for n in ast.walk(expr) if (isinstance(n, ast.Subscript) and (isinstance(n.slice, ast.Slice) or isinstance(n.slice, ast.Constant) and isinstance(n.slice.value, int)))
+                      or (isinstance(n, ast.Call) and unparse(n.func).split(".")[-1] in ("islice", "next", "pop", "enumerate"))]
+        ctx.check("R5", not positional, "_parse_cfg_file_patterns: all lines of a value are candidates (no positional selection)",
+                  "config._parse_cfg_file_patterns: lines of a file_patterns value are selected by position",
+                  f"`{txt[:120]}`: with `{unparse(positional[0]) if positional else ''}` a pattern written on the key line (`README.md = version {{version}}`) is dropped, "
+                  f"while the same entry in a TOML config is honoured", loc=fpf.loc(y), witness={"setup.cfg": "[bumpver:file_patterns]\nREADME.md = version {version}"})
